@@ -16,7 +16,8 @@
 From Coq Require Import List ZArith Bool.
 From V Require Import Gen.Params Lib.Hex SendStream.Model SendStream.ProofsBase SendStream.ProofsInv
   SendStream.ProofsCov SendStream.ProofsOut SendStream.ProofsFin SendStream.ProofsCnt SendStream.ProofsDone SendStream.Theorems StreamE2E.Model StreamE2E.Compose
-  StreamE2E.DgModel StreamE2E.DgProofs StreamE2E.PackModel StreamE2E.PackProofs.
+  StreamE2E.DgModel StreamE2E.DgProofs StreamE2E.PackModel StreamE2E.PackProofs
+  StreamE2E.Concrete StreamE2E.NetPkt StreamE2E.EndToEnd StreamE2E.NetExample.
 Import ListNotations.
 Open Scope Z_scope.
 
@@ -93,10 +94,12 @@ Theorem C01_completion_exactly_once :
 Proof. exact sender_completion_exactly_once'. Qed.
 Print Assumptions C01_completion_exactly_once.
 
-(** End to end: for every sender history and every delivery sequence drawn from the emitted frames
+(** (Rounds 1-3, kept: the same two statements over an ABSTRACT reassembly spec and an abstract network; the
+    concrete versions are at the end of this file.)
+    End to end: for every sender history and every delivery sequence drawn from the emitted frames
     (loss, duplication, reordering; reads of any sizes interleaved), the concatenation of the reads
     is a prefix of W; EOF is reported only when everything was read and the writer closed. *)
-Theorem C01_end_to_end_prefix :
+Theorem C01_end_to_end_prefix_abstract :
   forall (sid0 : Z) (rsa : bool) (swin cwin : Z) (ops : list op) (evs : list event),
   let s := fst (run (init sid0 rsa swin cwin) ops) in
   let E := frames_of (snd (run (init sid0 rsa swin cwin) ops)) in
@@ -105,11 +108,11 @@ Theorem C01_end_to_end_prefix :
   (exists rest, W s = all_read rs ++ rest) /\
   (saw_eof rs = true -> all_read rs = W s /\ finishedWriting s = true).
 Proof. exact end_to_end_prefix'. Qed.
-Print Assumptions C01_end_to_end_prefix.
+Print Assumptions C01_end_to_end_prefix_abstract.
 
 (** If what was delivered covers [0,|W|) and includes the FIN (the model's stand-in for
     "loss recovery eventually delivers"), a draining read yields exactly W and EOF. *)
-Theorem C01_complete_if_covered :
+Theorem C01_complete_if_covered_abstract :
   forall (sid0 : Z) (rsa : bool) (swin cwin : Z) (ops : list op) (evs : list event),
   let s := fst (run (init sid0 rsa swin cwin) ops) in
   let E := frames_of (snd (run (init sid0 rsa swin cwin) ops)) in
@@ -121,7 +124,7 @@ Theorem C01_complete_if_covered :
   let rs' := snd (rrun rcv0 (evs ++ [ERead n])) in
   all_read rs' = W s /\ saw_eof rs' = true /\ finishedWriting s = true.
 Proof. exact complete_if_covered_e2e'. Qed.
-Print Assumptions C01_complete_if_covered.
+Print Assumptions C01_complete_if_covered_abstract.
 
 (** Datagrams (model of /repo/datagram_queue.go, any op list of Add / parked-Add wake-up / Peek / Pop /
     HandleDatagramFrame / Receive / Close): what Receive returned embeds into what was handled
@@ -250,3 +253,159 @@ Example C01_late_enable_witness_repaired :
   frames_of (snd r) = [] /\ supportsRSA (fst r) = false.
 Proof. vm_compute. split; reflexivity. Qed.
 Print Assumptions C01_late_enable_witness_repaired.
+
+(** * Round 4: end to end on the concrete models of every layer
+
+    [crun (rrun_init w) evs] is the RecvStream model of receive_stream.go + frame_sorter.go (coq/RecvStream,
+    coq/FrameSorter; tied to the code by C03) with advertised window [w], fed with real frames
+    ([CDeliver f cb]: handleStreamFrame with the frame's own bytes) and Read calls; [None] = the receiver
+    answered with a transport error (FLOW_CONTROL_ERROR beyond [w], gap limit of the sorter).
+    [nrun .. nst0 nevs] is the receiving connection's packet path over ARBITRARY arriving byte strings:
+    PktProt.unprotect (C05), IsPotentiallyDuplicate / ReceivedPacket of the RecvPH model (C07). *)
+
+(** SendStream.Model o (frames of the sender, any multiplicity, any order) o RecvStream.Model:
+    what Read returned is a prefix of W; io.EOF only after all of W and after Close. The consistency
+    premise of C03's theorems is discharged by C01_sender_frames_consistent. *)
+Theorem C01_concrete_prefix :
+  forall (sid0 : Z) (rsa : bool) (swin cwin : Z) (ops : list op) (w : Z) (evs : list cev),
+  let s := fst (run (init sid0 rsa swin cwin) ops) in
+  let E := frames_of (snd (run (init sid0 rsa swin cwin) ops)) in
+  (forall f, In f (cdelivered evs) -> In f E) ->
+  0 <= w < FrameSorter.Model.MaxBC -> (forall n, In (CRead n) evs -> 0 <= n) ->
+  forall r, crun (RecvStream.Spec.rrun_init w) evs = Some r ->
+  (exists rest, W s = RecvStream.Spec.rr_out r ++ rest) /\
+  (RecvStream.Spec.rr_eof r = true -> RecvStream.Spec.rr_out r = W s /\ finishedWriting s = true).
+Proof. exact concrete_prefix. Qed.
+Print Assumptions C01_concrete_prefix.
+
+(** ... and if the frames that arrived cover [0,|W|) and include the FIN and the receiver raised no
+    transport error, |W|+1 further Reads (of any positive size) succeed, return the rest, and io.EOF. *)
+Theorem C01_concrete_complete :
+  forall (sid0 : Z) (rsa : bool) (swin cwin : Z) (ops : list op) (w : Z) (evs : list cev) (n : Z),
+  let s := fst (run (init sid0 rsa swin cwin) ops) in
+  let E := frames_of (snd (run (init sid0 rsa swin cwin) ops)) in
+  (forall f, In f (cdelivered evs) -> In f E) ->
+  0 <= w < FrameSorter.Model.MaxBC -> (forall m, In (CRead m) evs -> 0 <= m) -> 0 < n ->
+  forall r0, crun (RecvStream.Spec.rrun_init w) evs = Some r0 ->
+  (forall i, 0 <= i < zlen (W s) -> in_range (cdelivered evs) i) ->
+  existsb f_fin (cdelivered evs) = true ->
+  exists r, crun r0 (repeat (CRead n) (Datatypes.S (Z.to_nat (zlen (W s))))) = Some r /\
+            RecvStream.Spec.rr_out r = W s /\ RecvStream.Spec.rr_eof r = true /\ finishedWriting s = true.
+Proof. exact concrete_complete. Qed.
+Print Assumptions C01_concrete_complete.
+
+(** The network, derived instead of assumed. Hypotheses: ideal integrity of the AEAD (C05's); only the
+    sender seals, and only its packets. For every sequence of arriving byte strings interleaved with any
+    other calls on the received-packet handler: every packet whose frames are handled is a packet of the
+    sender (corrupted, truncated, invented datagrams deliver nothing), and - as long as no processed number
+    has fallen at or below the watermark of numbers the history forgot through the MaxNumAckRanges limit
+    (C07_watermark_only_at_limit) - no packet number, hence no packet, is handled twice (a duplicated
+    datagram delivers its frames once). *)
+Theorem C01_net_processed_once :
+  forall (aead_open : Z -> Z -> list Z -> list Z -> option (list Z)) (hp_mask : list Z -> list Z)
+         (aead_seal : Z -> Z -> list Z -> list Z -> list Z) (sealed : Z -> Z -> list Z -> list Z -> Prop),
+  (forall pn kp ad c p, aead_open pn kp ad c = Some p -> sealed pn kp ad p /\ c = aead_seal pn kp ad p) ->
+  forall sent : list (Z * Z * list Z),
+  (forall pn kp hdr p, sealed pn kp hdr p -> In (pn, kp, p) sent) ->
+  forall nevs : list nev,
+  let ns := nrun aead_open hp_mask nst0 nevs in
+  incl (n_procs ns) sent /\
+  ((forall q, In q (pns ns) -> ~ RecvPH.ProofsHist.le_opt q (n_W ns 2%nat)) -> NoDup (pns ns) /\ NoDup (n_procs ns)).
+Proof. exact processed_from_sent. Qed.
+Print Assumptions C01_net_processed_once.
+
+(** C01_end_to_end_prefix / C01_complete_if_covered in their final form:
+    SendStream.Model o packets o arbitrary network o (C05 unpack . C07 duplicate filter) o RecvStream.Model.
+    Remaining hypotheses: [ideal], [honest] (above); [packed]: the plaintexts the sender sealed contain, for this
+    stream, only frames popStreamFrame returned (packer + wire codec, C08); [delivered_is_handled]: the stream
+    layer is fed with the STREAM frames of the processed packets, in processing order; [tracked] (above). *)
+Theorem C01_end_to_end_prefix :
+  forall aead_seal aead_open hp_mask sealed,
+  (forall pn kp ad c p, aead_open pn kp ad c = Some p -> sealed pn kp ad p /\ c = aead_seal pn kp ad p) ->
+  forall (sent : list (Z * Z * list Z)),
+  (forall pn kp hdr p, sealed pn kp hdr p -> In (pn, kp, p) sent) ->
+  forall (frames_in : list Z -> list frame) (nevs : list nev),
+  (forall q, In q (pns (nrun aead_open hp_mask nst0 nevs)) ->
+     ~ RecvPH.ProofsHist.le_opt q (n_W (nrun aead_open hp_mask nst0 nevs) 2%nat)) ->
+  forall (sid0 : Z) (rsa : bool) (swin cwin : Z) (ops : list op) (w : Z) (evs : list cev),
+  let s := fst (run (init sid0 rsa swin cwin) ops) in
+  let E := frames_of (snd (run (init sid0 rsa swin cwin) ops)) in
+  (forall x f, In x sent -> In f (frames_in (snd x)) -> In f E) ->
+  cdelivered evs = stream_frames_handled aead_open hp_mask frames_in nevs ->
+  0 <= w < FrameSorter.Model.MaxBC -> (forall n, In (CRead n) evs -> 0 <= n) ->
+  forall r, crun (RecvStream.Spec.rrun_init w) evs = Some r ->
+  (exists rest, W s = RecvStream.Spec.rr_out r ++ rest) /\
+  (RecvStream.Spec.rr_eof r = true -> RecvStream.Spec.rr_out r = W s /\ finishedWriting s = true).
+Proof. exact e2e_prefix. Qed.
+Print Assumptions C01_end_to_end_prefix.
+
+Theorem C01_complete_if_covered :
+  forall aead_seal aead_open hp_mask sealed,
+  (forall pn kp ad c p, aead_open pn kp ad c = Some p -> sealed pn kp ad p /\ c = aead_seal pn kp ad p) ->
+  forall (sent : list (Z * Z * list Z)),
+  (forall pn kp hdr p, sealed pn kp hdr p -> In (pn, kp, p) sent) ->
+  forall (frames_in : list Z -> list frame) (nevs : list nev),
+  (forall q, In q (pns (nrun aead_open hp_mask nst0 nevs)) ->
+     ~ RecvPH.ProofsHist.le_opt q (n_W (nrun aead_open hp_mask nst0 nevs) 2%nat)) ->
+  forall (sid0 : Z) (rsa : bool) (swin cwin : Z) (ops : list op) (w : Z) (evs : list cev),
+  let s := fst (run (init sid0 rsa swin cwin) ops) in
+  let E := frames_of (snd (run (init sid0 rsa swin cwin) ops)) in
+  (forall x f, In x sent -> In f (frames_in (snd x)) -> In f E) ->
+  cdelivered evs = stream_frames_handled aead_open hp_mask frames_in nevs ->
+  0 <= w < FrameSorter.Model.MaxBC -> (forall n, In (CRead n) evs -> 0 <= n) ->
+  forall n r0, 0 < n -> crun (RecvStream.Spec.rrun_init w) evs = Some r0 ->
+  (forall i, 0 <= i < zlen (W s) -> in_range (cdelivered evs) i) ->
+  existsb f_fin (cdelivered evs) = true ->
+  exists r, crun r0 (repeat (CRead n) (Datatypes.S (Z.to_nat (zlen (W s))))) = Some r /\
+            RecvStream.Spec.rr_out r = W s /\ RecvStream.Spec.rr_eof r = true /\ finishedWriting s = true.
+Proof. exact e2e_complete. Qed.
+Print Assumptions C01_complete_if_covered.
+
+(** Datagrams end to end: SendDatagram (DgModel.Add) o composeNextPacket (PackModel) o packets o network o
+    (C05 . C07) o HandleDatagramFrame / Receive (DgModel). Every payload is returned by ReceiveDatagram at most
+    as often as SendDatagram accepted it: what is delivered is unmodified (it IS a sent payload) and delivered at
+    most once - whatever the network duplicates and whatever the sender declares lost.
+    [wire_dgs]: the DATAGRAM frames composeNextPacket put into its packets are what the receiver's parser finds
+    in the sealed plaintexts (codec, C08); [handled_is_processed]: HandleDatagramFrame is called exactly for the
+    DATAGRAM frames of the processed packets. *)
+Theorem C01_datagram_end_to_end :
+  forall aead_seal aead_open hp_mask sealed,
+  (forall pn kp ad c p, aead_open pn kp ad c = Some p -> sealed pn kp ad p /\ c = aead_seal pn kp ad p) ->
+  forall (sent : list (Z * Z * list Z)),
+  (forall pn kp hdr p, sealed pn kp hdr p -> In (pn, kp, p) sent) ->
+  forall (dgs_in : list Z -> list (list Z)) (nevs : list nev),
+  (forall q, In q (pns (nrun aead_open hp_mask nst0 nevs)) ->
+     ~ RecvPH.ProofsHist.le_opt q (n_W (nrun aead_open hp_mask nst0 nevs) 2%nat)) ->
+  forall pops : list pop_, Forall wf_op pops ->
+  flat_map dgs_in (map snd sent) = dgs_of (sent_of (combine pops (snd (prun pk0 pops)))) ->
+  forall rops : list dop, ~ In DPop rops ->
+  handled_of rops = datagrams_handled aead_open hp_mask dgs_in nevs ->
+  forall d, (cnt d (received rops) <= cnt d (gAdded (p_dq (fst (prun pk0 pops)))))%nat.
+Proof. exact e2e_datagram_at_most_once'. Qed.
+Print Assumptions C01_datagram_end_to_end.
+
+(** Non-vacuity of the world hypotheses and of the packet path: a lookup-authenticated AEAD satisfies [ideal]
+    and [honest]; the same protected packet arriving twice, then corrupted, then truncated, is handled once;
+    no watermark was reached. *)
+Example C01_net_nonvacuous :
+  (forall pn kp ad c p, ex_open pn kp ad c = Some p -> ex_sealed pn kp ad p /\ c = ex_seal pn kp ad p) /\
+  (forall pn kp hdr p, ex_sealed pn kp hdr p -> In (pn, kp, p) ex_sent) /\
+  let ns := nrun ex_open ex_mask nst0 ex_arrivals in
+  n_procs ns = ex_sent /\ n_closed ns = false /\ n_W ns 2%nat = None.
+Proof. split; [exact ex_ideal|]. split; [exact ex_honest|]. vm_compute. repeat split. Qed.
+Print Assumptions C01_net_nonvacuous.
+
+(** Non-vacuity of the concrete receiver composition: the frames of [C01_nonvacuous]'s history, delivered out
+    of order and duplicated to the RecvStream model, with interleaved reads. *)
+Example C01_concrete_nonvacuous :
+  let evs := [CDeliver (mkF 5 [6; 7; 8; 9; 10] true) (Some 0); CRead 100; CDeliver (mkF 0 [1; 2; 3; 4; 5] false) (Some 1);
+              CDeliver (mkF 0 [1; 2; 3; 4; 5] false) (Some 2); CRead 3; CRead 100] in
+  (forall f, In f (cdelivered evs) -> In f (frames_of (snd (run (init 4 false 1000 1000) ex_ops)))) /\
+  exists r, crun (RecvStream.Spec.rrun_init 1000) evs = Some r /\
+            RecvStream.Spec.rr_out r = [1; 2; 3; 4; 5; 6; 7; 8; 9; 10] /\ RecvStream.Spec.rr_eof r = true.
+Proof.
+  cbv zeta. split.
+  - vm_compute. intros f [H|[H|[H|[]]]]; subst; auto.
+  - eexists. split; [vm_compute; reflexivity|]. split; vm_compute; reflexivity.
+Qed.
+Print Assumptions C01_concrete_nonvacuous.
